@@ -43,6 +43,9 @@ type World struct {
 	MakeReq func(i int, a *Asm, tops []messaging.Port, il uint64) messaging.Port
 	// OnBuilt is called once the assembly exists and before the run starts.
 	OnBuilt func(a *Asm)
+	// NoEngineHook leaves the engine without the harness's event-counting hook
+	// (no event cap, no AfterEvent): the unobserved baseline of C33.
+	NoEngineHook bool
 }
 
 // RespRec is one response as seen by a requester.
@@ -337,10 +340,16 @@ func Run(cfg *Config, w *World) *Asm {
 	a := Build(cfg, w)
 	w.Asm = a
 	a.Eng.RegisterHandler("ReqPoker", reqPoker{a})
-	a.Eng.AcceptHook(engineHook{w})
+	if !w.NoEngineHook {
+		a.Eng.AcceptHook(engineHook{w})
+	}
 
 	if w.OnBuilt != nil {
 		w.OnBuilt(a)
+	}
+
+	if ExtraAttach != nil {
+		ExtraAttach(a)
 	}
 
 	for i, r := range a.Reqs {
